@@ -276,9 +276,39 @@ def _json_arms(R):
     built = {v: set() for v in variants}
     calls = {v: [] for v in variants}
     casts = []
+
+    def may_none_blocks(local, depth=4):
+        """blocks where an Option local can become None: a literal None, or the result of a call (unknown); follows plain moves"""
+        out = []
+        for c_ in F._call_defs(f).get(local, []):
+            out.append(c_.bb)
+        for (b_, st_) in F._assign_defs(f).get(local, []):
+            if st_["pl"]["p"]:
+                continue
+            rv_ = st_["rv"]
+            if rv_["k"] == "aggr" and rv_.get("variant") == "None":
+                out.append(b_)
+            elif rv_["k"] == "aggr":
+                continue
+            elif depth > 0 and rv_["k"] == "use" and rv_["op"]["k"] in ("copy", "move") and not rv_["op"]["pl"]["p"]:
+                out += may_none_blocks(rv_["op"]["pl"]["l"], depth - 1)
+            else:
+                out.append(b_)
+        return out
+
+    # a value that is only the default of `opt.unwrap_or(default)` is produced exactly where `opt` can be None
+    default_of = {}
+    for c in f.calls:
+        if re.search(r"^core::option::Option::unwrap_or$", short(c.name)) and len(c.args) == 2 and \
+                all(a.get("k") in ("copy", "move") and not a["pl"]["p"] for a in c.args):
+            default_of[c.args[1]["pl"]["l"]] = c.args[0]["pl"]["l"]
     for i, st in f.stmts():
         if st["rv"]["k"] == "aggr" and (st["rv"].get("adt") or "").endswith("serde_json::value::Value"):
-            for v in variants_at(i):
+            where = [i]
+            if st["k"] == "assign" and not st["pl"]["p"] and st["pl"]["l"] in default_of and \
+                    len(F._assign_defs(f).get(st["pl"]["l"], [])) == 1:
+                where = may_none_blocks(default_of[st["pl"]["l"]]) or [i]
+            for v in set(v2 for b in where for v2 in variants_at(b)):
                 built[v].add(st["rv"].get("variant"))
         if st["rv"]["k"] == "cast" and st["rv"]["ck"] in ("IntToFloat", "FloatToInt", "IntToInt"):
             casts.append("%s->%s" % (st["rv"]["from"], st["rv"]["to"]))
@@ -301,7 +331,7 @@ def _json_arms(R):
         "Float": ({"Number", "Null"}, r"Number::from_f64$"),
         "Bool": ({"Bool"}, None),
         "String": ({"String"}, r"String as core::clone::Clone>::clone$|ToOwned for str>::to_owned$|ToString>::to_string$"),
-        "Array": ({"Array"}, r"^sqlgrep::model::Value::json_value$"),
+        "Array": ({"Array"}, r"^sqlgrep::model::Value::json_value$"),      # + every element is rendered: see the adapter check below
         "Timestamp": ({"String"}, r"ToString>::to_string$"),
         "Interval": ({"String"}, r"ToString>::to_string$"),
     }
@@ -311,8 +341,18 @@ def _json_arms(R):
             R.violation("C17.json", "json_value|" + v, "value variant %s has no reviewed JSON rendering" % v, [f.loc()])
             continue
         must = {"Number"} if v == "Float" else allowed
+        inl = set(getattr(f, "inlined", []) or [])
         ok = bool(built[v]) and built[v] <= allowed and must <= built[v] and not casts and \
-            (need is None or any(re.search(need, n) for n in calls[v]))
+            (need is None or any(re.search(need, n) or (v == "Array" and n in inl) for n in calls[v]))
+        if v == "Array" and ok:
+            # the element traversal is 1:1 (map / loop): an adapter that can drop or add elements changes the array
+            lossy = [n for n in calls[v] if re.search(r"Iterator::(filter|filter_map|flat_map|flatten|skip|take|step_by|skip_while|take_while|map_while|"
+                                                      r"dedup\w*|rev|chain|zip)$", n)]
+            if lossy:
+                R.violation("C17.json", "json_value|Array|elements", "the elements of an array value go through %s on their way into the JSON "
+                            "array: elements can be dropped or reordered (e.g. a NULL element vanishes instead of printing as null)"
+                            % lossy[0].split("::")[-1], [f.loc()])
+                continue
         if v == "Int" and any(re.search(r"as_f64|from_f64|Number as core::convert::From<(u|i)(8|16|32)>>", n) for n in calls[v]):
             ok = False
         if ok:
